@@ -37,11 +37,11 @@ def groups_of(a, axis, labeler, ignore_none):
     return out
 
 
-def h_partition(nr, nc, axis, lname, remove_empty=False, zeros=1):
+def h_partition(nr, nc, axis, lname, remove_empty=False, zeros=1, md='both'):
     if remove_empty:
-        t, a = make_table(nr, nc, md='both', zeros=0, type_='OTU table', unsorted=False, layouts=('csr',))
+        t, a = make_table(nr, nc, md=md, zeros=0, type_='OTU table', unsorted=False, layouts=('csr',))
     else:
-        t, a = make_table(nr, nc, md='both', zeros=zeros, type_='OTU table')
+        t, a = make_table(nr, nc, md=md, zeros=zeros, type_='OTU table')
     ignore_none = flag('ignore_none')
     labeler = LABELERS[lname]
     sig = dict(axis=axis, labeler=lname, ignore_none=int(ignore_none))
@@ -196,6 +196,9 @@ def jobs(tier):
                 out.append(('partition', (nr, nc, ax, ln, True, 0)))
                 if ln not in ('zero-or-one', 'none-for-some', 'list-valued'):
                     out.append(('collapse', (nr, nc, ax, ln, z)))
+            # per-id metadata whose values are all falsy still travels with its id
+            out.append(('partition', (nr, nc, ax, 'injective', False, 0, 'falsy')))
+            out.append(('partition', (nr, nc, ax, 'id-parity', True, 0, 'falsy')))
             out.append(('partition_dict', (nr, nc, ax)))
             for mode in ('add', 'divide'):
                 out.append(('one_to_many', (nr, nc, ax, mode, z)))
